@@ -60,17 +60,24 @@ class C13(Machine):
         pb.step(c0, k="call", obj=mac, name="__call__", args=[B(rng.choice(msgs))], kw={}, tag="mac", kcls=k0cls, role="mac")
         nset = rng.choice([1, 1, 2, 3])
         last = k0
+        keys_seen = [k0]
         for i in range(nset):
             cls = forced.pop(0) if forced else rng.choice(KCLASSES)
             n = klen(cls, bb, d)
-            if rng.random() < 0.3 and len(last) == n and n > 0:
+            v = rng.random()
+            if v < 0.25 and len(last) == n and n > 0:
                 k = bytes([last[0] ^ 0x80]) + last[1:]            # same length, different bytes
-            elif rng.random() < 0.2 and n > 0:
-                k = (last + bytes(n))[:n]                        # shares a prefix with the old key
+            elif v < 0.45 and n > 0:
+                k = (last + bytes(n))[:n]                        # old key truncated / zero-extended
+            elif v < 0.55:
+                k = last                                         # the same key again
+            elif v < 0.65 and keys_seen:
+                k = rng.choice(keys_seen)                        # an earlier key comes back
             else:
                 k = rbytes(rng, n)
             pb.step(c0, k="call", obj=mac, name="setkey", args=[B(k)], kw={}, tag="setkey:" + cls, kcls=cls, role="setkey")
             last = k
+            keys_seen.append(k)
             for _ in range(rng.choice([1, 1, 2])):
                 pb.step(c0, k="call", obj=mac, name="__call__", args=[B(rng.choice(msgs))], kw={}, tag="mac", role="mac")
         if rng.random() < 0.6:
